@@ -87,6 +87,26 @@ CLAIMED = {
          TB + "sync.Cond semantics as modelled (Wait = release; park; re-acquire).",
          "DESIGN.md 7 C16, 8 F6"),
 }
+# additions made after the first round of claims (appended to the level text)
+ADDED = {
+ "C01": " Also: a quarter of the concurrent calls return a value TOGETHER with an error; model assumption `Async` now includes 'the read loops do nothing between two reads that can wait' (extracted facts).",
+ "C02": " The loops' non-blocking bodies (`reqLoopBlocksOnlyOnRead`, `respLoopBlocksOnlyOnRead`) are extracted facts under `Async`; workloads include 1300 stalled handlers per side and chains of depth 2600 (no admission limit).",
+ "C03": " C03_read_failure_reaches_setErr: every read error reaches setErr unconditionally and without waiting (no foreign lock, no channel operation); fault cases include calls issued inside the ForRemotes callback, judged before any teardown, and injected errors that wrap context.DeadlineExceeded/Canceled.",
+ "C04": " C04_closure_invocations_are_cancellable (the proxy hands the invocation's own context to the stub; release never waits for a running closure) + scenarios: invocation under a deadline, cancel while the passed closure is running.",
+ "C05": " Further modules: Props/C05Callee.lean (callee-side containment, model Callee.lean, trace-validated by 19 raw-peer scenarios in child processes: `ce run`), Props/C05Deadlock.lean (no internal wait cycle), Props/C08Live.lean (decoder signals exactly once; done implies signalled; readers can always leave), closure release never waits for a running closure; late frames on an ended stream link in a child process.",
+ "C06": " Props/C06Link.lean: terminating a link never crashes, for every interleaving of setErr with in-flight calls (M2 over M1); every other hostile link has a call of ours in flight; zero-parameter exported methods in the zoo; systematic name sweep.",
+ "C07": " `Faithful` now includes: the walk is repeated on every request from the object held now (no cache), the argument-count check precedes every access to the parameter list; scenario: the exposed graph is re-pointed between calls.",
+ "C08": " Stream model: the silent abort is not a step of the current source (C15_no_silent_abort), decoder done implies readers signalled; C08_envelope_fresh_per_frame; scenarios: envelopes with omitted members, 300 pipelined requests in one chunk, frames after the link ended.",
+ "C09": " Workload also returns values together with errors and calls the same remote functions from 8 goroutines at once.",
+ "C10": " Props/C10Callee.lean over the callee model, trace-validated (`ce run`) by raw-peer scenarios: every return shape, resolve errors, handler/closure panics (error and non-error values), marshal and write failures.",
+ "C11": " C11_invocations_run_outside_the_table_lock + scenarios: 4 concurrent invocations that wait for each other, a closure body that passes a closure on.",
+ "C12": " Scheduler scenarios closure-call+invoke+response/cancel+late-invoke are replayed on M2 (closure table = closures of in-flight calls; look-up hit/miss sequence compared); exit path 'link already ended'.",
+ "C13": " Re-link phase: a new link after a failure gets a fresh id, survivors keep identity and routing.",
+ "C14": " The harness samples the number of open transport reads at every disconnect notification (must be 0).",
+ "C15": " Post-teardown closure-carrying calls must leave no registration; Props/C08Live.lean (decoder done implies signalled, readers can always leave).",
+ "C16": " C16_setErr_waits_for_nobody (setErr takes only its own lock; the loops reach it without waiting); in-callback and context-wrapping fault cases.",
+ "C17": " C17_closure_arglist_is_array + frames of closure invocations (0 and 2 closure arguments) decoded independently.",
+}
 PENDING = {}
 checks = []
 na = []
@@ -94,6 +114,7 @@ for p in props:
     pid = p["id"]
     if pid in CLAIMED:
         tech, text, note, ref = CLAIMED[pid]
+        text = text + ADDED.get(pid, "")
         checks.append({
             "property_id": pid,
             "quick_cmd": f"./check {pid} --tier quick",
